@@ -513,7 +513,11 @@ def stress(ctx):
     # a point that is not part of a number is text
     odd = ['S1.run', 'S1_run', 'S1Run', 'S1.5run', 'lane2.', 'lane2-',
            'lane2.0', 'otu7.b', 'otu7b', 'otu7.1b', 'v1.2.3', 'v1.2.10',
-           'v1.10', '1.a', '1a', '1.5a']
+           'v1.10', '1.a', '1a', '1.5a',
+           # whole numbers beyond 2**53 are still whole numbers
+           'run10000000000000001_a', 'run10000000000000000_b',
+           'r9007199254740993', 'r9007199254740992x',
+           '18446744073709551617', '18446744073709551616b']
     for axis in ('sample', 'observation'):
         ids = list(odd)
         r.shuffle(ids)
